@@ -266,7 +266,65 @@ fn foreign_lock_rider(st: &hist::HState, scratch: &crate::util::Scratch, srcs: &
 
 static THOROUGH: AtomicUsize = AtomicUsize::new(0);
 
+/// A history at a scale the history graph does not reach: 150 blocks in as many block
+/// sub-directories (beyond any fan-out limit of the concurrent listing), every file changed,
+/// the first version deleted, gc - replayed into fresh archives under four runtimes.
+pub fn many_blocks_replays() -> Vec<(Violation, Value)> {
+    let mut out = Vec::new();
+    let scratch = crate::util::Scratch::new("c17many");
+    let tree = |v: u32| {
+        let mut t = crate::tree::empty_tree();
+        for i in 0..150u32 {
+            t.insert(format!("f{i:03}"), crate::tree::Node::file(format!("v{v} {i:06}").as_bytes(), crate::tree::T0 + 400 + (v * 1000 + i) as i64));
+        }
+        t
+    };
+    let opts = run::BOpts::new(100, 1 << 20, 0);
+    let srcs: Vec<std::path::PathBuf> = (0..2)
+        .map(|v| {
+            let d = scratch.fresh("src");
+            crate::tree::materialize(&tree(v), &d);
+            d
+        })
+        .collect();
+    let mut results: Vec<(String, Snap)> = Vec::new();
+    for (flavor, name) in [(Flavor::Current, "current-thread"), (Flavor::Multi(2), "multi-thread-2"), (Flavor::Multi(8), "multi-thread-8"), (Flavor::CurrentExitAtOnce, "exit-at-once")] {
+        let dir = scratch.fresh("a");
+        run::do_create_archive(&dir);
+        let mut steps = Vec::new();
+        steps.push(run::do_backup(&dir, &srcs[0], &opts, run::NOHOOK, flavor).describe());
+        steps.push(run::do_backup(&dir, &srcs[1], &opts, run::NOHOOK, flavor).describe());
+        steps.push(run::do_delete(&dir, &[0], false, false, run::NOHOOK, flavor, None).op.describe());
+        steps.push(run::do_backup(&dir, &srcs[1], &opts, run::NOHOOK, flavor).describe());
+        steps.push(run::do_delete(&dir, &[], false, false, run::NOHOOK, flavor, None).op.describe());
+        REEXEC.fetch_add(5, Ordering::Relaxed);
+        results.push((format!("{name}: {steps:?}"), Snap::load(&dir).canonical()));
+        let _ = std::fs::remove_dir_all(&dir);
+    }
+    for r in &results[1..] {
+        if r.1 != results[0].1 {
+            out.push((
+                Violation::new(
+                    "C17:archive-differs-between-replays:history-with-hundreds-of-blocks",
+                    format!(
+                        "backup of 150 one-block files, backup with every file changed, delete of the first version, backup again, gc: {} / {}: {}",
+                        results[0].0.chars().take(60).collect::<String>(),
+                        r.0.chars().take(60).collect::<String>(),
+                        first_difference(&results[0].1, &r.1)
+                    ),
+                ),
+                json!({"kind": "c17-many"}),
+            ));
+            break;
+        }
+    }
+    out
+}
+
 pub fn run(report: &Report, budget: &Budget) {
+    for (v, c) in many_blocks_replays() {
+        report.violation(&v, &c);
+    }
     let thorough = report.thorough();
     THOROUGH.store(thorough as usize, Ordering::Relaxed);
     let depth = if thorough { 3 } else { 2 };
